@@ -365,7 +365,7 @@ pub fn cmd_search_steps(args: &Args) {
             writeln!(w, "{nd}").unwrap();
         }
         for e in &o.events {
-            if e.contains("\"ev\":\"down\"") || e.contains("\"ev\":\"up\"") {
+            if e.contains("\"ev\":\"down\"") || e.contains("\"ev\":\"up\"") || e.contains("\"ev\":\"ttwrite\"") {
                 writeln!(w, "{e}").unwrap();
             }
         }
